@@ -61,6 +61,7 @@ pub fn dispatch(req: &Value) -> Value {
         "codec_parse" => op_codec_parse(req),
         "copyright_lookup" => op_copyright_lookup(req),
         "accessor" => crate::gen_accessors::op_accessor(req),
+        "control_find" => op_control_find(req),
         "pgp" => match debian_control::pgp::strip_pgp_signature(&s(req, "s")) {
             Ok((p, sig)) => json!({"ok": true, "payload": p, "sig": sig}),
             Err(e) => json!({"ok": false, "err": format!("{:?}", e)}),
@@ -706,4 +707,27 @@ fn op_copyright_lookup(req: &Value) -> Value {
         json!({"ok": true, "files": files, "found": found, "license": license})
     });
     json!({"lossless": lossless, "lossy": lossy})
+}
+
+
+/// C15: which paragraphs a control file reports as its source / binary packages, before and after add_source / add_binary
+fn op_control_find(req: &Value) -> Value {
+    use debian_control::lossless::control::Control;
+    let text = s(req, "s");
+    guarded(|| {
+        let mut c: Control = match text.parse() { Ok(c) => c, Err(e) => return json!({"ok": false, "err": format!("{:?}", e)}) };
+        let snap = |c: &Control| -> Value {
+            let src = c.source().map(|x| json!({"id": x.as_deb822().get("X-Id"), "name": x.name()}));
+            let bins: Vec<Value> = c.binaries().map(|b| json!({"id": b.as_deb822().get("X-Id"), "name": b.name()})).collect();
+            json!({"source": src, "binaries": bins, "text": c.to_string()})
+        };
+        let before = snap(&c);
+        let mut returned = Value::Null;
+        if let Some(a) = req["add"].as_array() {
+            let name = js(&a[1]);
+            if js(&a[0]) == "source" { let x = c.add_source(&name); returned = json!({"id": x.as_deb822().get("X-Id"), "name": x.name()}); }
+            else { let x = c.add_binary(&name); returned = json!({"id": x.as_deb822().get("X-Id"), "name": x.name()}); }
+        }
+        json!({"ok": true, "before": before, "after": snap(&c), "returned": returned})
+    })
 }
